@@ -2,6 +2,7 @@ package client
 
 import (
 	"fmt"
+	"sync"
 	"time"
 
 	pkts "github.com/energomonitor/bisquitt/packets"
@@ -23,6 +24,9 @@ type sleepTransaction struct {
 	sleepDuration       time.Duration
 	state               transactionState
 	timer               *time.Timer
+	// The transaction is driven by the API call, by the receive loop and by its
+	// timers, each running in a goroutine of its own.
+	mutex sync.Mutex
 }
 
 func newSleepTransaction(client *Client, sleepDuration time.Duration) *sleepTransaction {
@@ -63,6 +67,9 @@ func (t *sleepTransaction) Fail(e error) {
 }
 
 func (t *sleepTransaction) Sleep() error {
+	t.mutex.Lock()
+	defer t.mutex.Unlock()
+
 	state := t.client.state.Get()
 	switch state {
 	case util.StateActive:
@@ -83,6 +90,9 @@ func (t *sleepTransaction) Sleep() error {
 }
 
 func (t *sleepTransaction) resendDisconnect() {
+	t.mutex.Lock()
+	defer t.mutex.Unlock()
+
 	t.disconnectResendNum++
 	if t.disconnectResendNum > t.retryCount {
 		t.log.Debug("DISCONNECT reply timeout.")
@@ -98,6 +108,9 @@ func (t *sleepTransaction) resendDisconnect() {
 }
 
 func (t *sleepTransaction) Disconnect(disconnect *pkts1.Disconnect) {
+	t.mutex.Lock()
+	defer t.mutex.Unlock()
+
 	if t.state != awaitingDisconnect {
 		t.log.Debug("Unexpected packet in %d: %v", t.state, disconnect)
 		return
@@ -108,6 +121,9 @@ func (t *sleepTransaction) Disconnect(disconnect *pkts1.Disconnect) {
 }
 
 func (t *sleepTransaction) Pingresp(pingresp *pkts1.Pingresp) {
+	t.mutex.Lock()
+	defer t.mutex.Unlock()
+
 	if t.state != awaitingPingresp {
 		t.log.Debug("Unexpected packet in %d: %v", t.state, pingresp)
 		return
@@ -129,6 +145,9 @@ func (t *sleepTransaction) startSleep() {
 }
 
 func (t *sleepTransaction) wakeup() {
+	t.mutex.Lock()
+	defer t.mutex.Unlock()
+
 	t.client.setState(util.StateAwake)
 	t.log.Debug("Awake")
 	t.state = awaitingPingresp
@@ -138,6 +157,9 @@ func (t *sleepTransaction) wakeup() {
 		return
 	}
 	t.timer = time.AfterFunc(maxPingrespWait, func() {
+		t.mutex.Lock()
+		defer t.mutex.Unlock()
+
 		t.Fail(fmt.Errorf("did not receive PINGRESP in %v", maxPingrespWait))
 	})
 }
